@@ -4,7 +4,7 @@ from ..rules import calls_to, calls_where, order_ok, blocks_of, self_field_of_ca
 from ..facts import callee_path
 from . import c05, c06
 
-TEXT = ("Modulators are advanced first in each chunk (before clocks, listeners and the mixer), through exactly one Modulator::update call site driven by the key list of the modulator storage, whose keys are added with the insert and removed with the removal; Mapping::map clamps to [0,1], then eases, then interpolates; an unresolved modulator or listener yields None and the parameter keeps its last value; ids resolve through the generation-checked arena; the storage swaps the element out around its own update. Waveform formulas and tween values are not decided. The LFO advances and wraps its phase and sets value = offset + amplitude x waveform(phase); an unresolved tween target stays absent. The divisions / remainders of Mapping::map and the LFO have their domain proved (A.singular). Modulator handles write their commands on every path; a sound is never picked up before the modulator it is linked to; Duration parameters move towards shorter targets too. Parameter::update has no 'nothing changed' shortcut for a linked parameter; no stale cached copies of parameter values. Elapsed time of a tweener is accumulated in double precision. A linked parameter is updated before any freeze gate of its owner, on every path. New modulators are taken over before the callback's command poll. The tweener's progress lives in its Tweening state or is reset by set.")
+TEXT = ("Modulators are advanced first in each chunk (before clocks, listeners and the mixer), through exactly one Modulator::update call site driven by the key list of the modulator storage, whose keys are added with the insert and removed with the removal; Mapping::map clamps to [0,1], then eases, then interpolates; an unresolved modulator or listener yields None and the parameter keeps its last value; ids resolve through the generation-checked arena; the storage swaps the element out around its own update. Waveform formulas and tween values are not decided. The LFO advances and wraps its phase and sets value = offset + amplitude x waveform(phase); an unresolved tween target stays absent. The divisions / remainders of Mapping::map and the LFO have their domain proved (A.singular). Modulator handles write their commands on every path; a sound is never picked up before the modulator it is linked to; Duration parameters move towards shorter targets too. Parameter::update has no 'nothing changed' shortcut for a linked parameter; no stale cached copies of parameter values. Elapsed time of a tweener is accumulated in double precision. A linked parameter is updated before any freeze gate of its owner, on every path. New modulators are taken over before the callback's command poll. The tweener's progress lives in its Tweening state or is reset by set. Value::from_modulator stores the mapping as written and the six *_output helpers of Mapping apply their operation to each bound in place; modulator builders store their arguments unconditionally.")
 TECHNIQUE = 'MIR ordering / single-site / operand-flow rules + interval evaluation of singular float operations'
 
 SR = 'backend::resources::SelfReferentialResourceStorage::<T>'
